@@ -60,6 +60,9 @@ class _PokTranslator(_util.OverrideableDataDesc):
         except AttributeError:
             pass
         super(_PokTranslator, self).__init__(**kwargs)
+        # set when this wraps the result of looking a wrapped function up on
+        # an instance or class: binding may have used up a named parameter
+        self._rebound = kwargs.get('original') is not None
         self.func = func
         self.posoarg_names = set(posoargs)
         self.kwoarg_names = set(kwoargs)
@@ -125,7 +128,10 @@ class _PokTranslator(_util.OverrideableDataDesc):
         if not found_kws:
             params.extend(kwoparams)
         if to_use:
-            raise ValueError("Parameters not found: " + ' '.join(to_use))
+            if not self._rebound:
+                raise ValueError("Parameters not found: " + ' '.join(to_use))
+            self.posoarg_names -= to_use
+            self.kwoarg_names -= to_use
         self.__signature__ = sig.replace(
             parameters=params,
             sources=_signatures.copy_sources(sig.sources, {self.func:self}))
